@@ -22,7 +22,8 @@ RULE = ("cases = (script, output mode, normalize_names, group_by_type): random s
         "ALTER/INDEX histories (C04 generator) and every regression-corpus script; quick: all 15 modes x 2 flag settings on a "
         "sample, thorough: 15 modes x normalize_names x group_by_type on everything; each result is checked against the documented "
         "shape and json_dump=True is compared with json.dumps of the plain result. Non-trivial = the result contains at least one "
-        "table with columns; distinct = distinct (script, mode, flags).") % len(GS.all_kinds())
+        "table with columns; distinct = distinct (script, mode, flags)."
+        " Added after seeded defects: scripts from the shared pool of all generators, enumerated sort-direction patterns on key clauses with DROP TABLE entries, json_dump True/False histories on one object.") % len(GS.all_kinds())
 ASSUMPTIONS = ["'primary_key names only this table's columns' is asserted for generator scripts only (corpus scripts legitimately name key columns the table does not define)",
                "scripts on which run() raises are not 'successful output' and are skipped (C16 decides them)"]
 MIN_EVENTS = {"run_return": 500}
